@@ -65,4 +65,26 @@ PROPS = {
         assumptions=_DRV_ASSUME + ['only the label LINEAR_CLEAN without faults is strict (must end in a .sol carrying the solver stub\'s code); every other label accepts '
                                    'a well-formed .sol (A), a .sol reporting the failure with code 200-299/500-999 (B1) or no .sol + diagnostic + non-zero status (B2)'],
     ),
+    'C12': dict(
+        engine='drvsim', level='exploration',
+        quick=dict(count=40000), thorough=dict(budget_s=360),
+        shrink_paths=[['faults']],
+        rule='scenario = seeded NL model with K in 0..3 tagged objectives (linear tags 20000(i+1)+j, constant 800000.5+1000i, nonlinear tag 700000+1000i in shapes that survive '
+             'flattening) x objno absent / 0..K+1 given under any of its names in any option source x multiobj 0/1 x acceptance profile x cvt:quadobj; whole driver run, '
+             'the solver stub records every objective and constraint it receives. Non-trivial = every run; distinct = (mode, objno class, K, delivered?, model feature set)',
+        assumptions=_DRV_ASSUME + ['an explicitly given objno selects single-objective mode even with multiobj=1 (BasicSolver::multiobj); the multi-objective clause is judged only when objno is not given',
+                                   'tag detection scans every number the stub received (objective terms, variable bounds, constraint serialisations); tags are spaced so that derived bounds cannot collide',
+                                   'binary NL input is not generated by drvsim (text only); the NL reader\'s binary path is exercised by iosim'],
+    ),
+    'C04': dict(
+        engine='drvsim', level='exploration',
+        quick=dict(count=40000), thorough=dict(budget_s=480),
+        shrink_paths=[['script', 'transfers'], ['faults']],
+        rule='scenario = seeded NL model (linear rows of all four shapes with unique coefficient tags, quadratic / nonlinear / logical items that are converted) x acceptance profile '
+             '(acc:linrange=0 / acc:quadrange=0 over-represented) x input suffixes (priority, lazy, sstatus) and in-bounds initial primal/dual values x solver answer with unique tags '
+             '(primal, dual per group, basis, IIS, full/none/long vectors) x a history of 3..8 direct transfers through the real ValuePresolver entry points with the first repeated last. '
+             'Oracle matches original linear rows to delivered rows by content (direct or equality+slack). Non-trivial = model delivered and solved; distinct = (match kinds, answer shape, status, features, delivered size)',
+        assumptions=_DRV_ASSUME + ['first n delivered variables are the NL variables in order (ModelAPI contract)', 'range->slack mapping as documented in include/mp/flat/redef/std/range_con.h',
+                                   'vectors shorter than the delivered model are not injected (outside the stated quantifier); an absent and an empty value group are treated as equal'],
+    ),
 }
